@@ -91,7 +91,7 @@ func wsProcesses(k int) int {
 const wsSumKey = "gengo.sum (the one the run wrote, whichever module root it is in)"
 
 // wsLogical: every generated file keeps its path; gengo.sum is compared by CONTENT here and its PLACE separately
-// (wsSumNote), so that a report says which of the two differs.  Before fix 1e7d3c9-style repair of Execute (see
+// (wsSumNote), so that a report says which of the two differs.  Before the repair of Execute by fix ccdc228 (see
 // known_findings.d/C04.json, class workspace_sum_location_unstable) the unchanged code wrote gengo.sum to the module
 // root of the package types.Load happened to register first - a range over packages.Package.Imports, a Go map - when
 // the module of the first requested package had no gengo.sum yet.
